@@ -20,6 +20,7 @@ import os
 import re
 
 from ..astutil import AnalysisError, dotted, src, walk_local, walk_ordered, calls_in
+from .. import pattern as P
 from ..rules import vhdltext as vt
 
 VH = "cohdl/_compiler/backend/vhdl/_vhdl_repr.py"
@@ -72,7 +73,7 @@ def rule_reserved(run):
     run.ob(not upper, "ModuleScope", file=m.rel, line=line, detail="lower-case", expected="table entries are lower case (names are compared lower-cased)", found=str(upper) if upper else "ok")
     # the tables are actually used to seed the set of used names
     init = m.func("ModuleScope.__init__")
-    t = src(init.node)
+    t = P.T(init.node)
     ok = "self._vhdl_reserved" in t and "self._additional_reserved" in t and "self._used_names" in t
     run.ob(ok, "ModuleScope.__init__", file=m.rel, line=init.node.lineno, detail="seeds-used-names", expected="_used_names = reserved | additional | user supplied", found="ok" if ok else "changed")
     run.end()
@@ -119,25 +120,25 @@ def rule_names(run):
         ok = isinstance(l, ast.Call) and isinstance(l.func, ast.Attribute) and l.func.attr == "lower" and dotted(l.func.value) == "name"
         run.ob(ok, "VhdlScope.complete_setup", file=m.rel, line=c.lineno, detail=f"collision-test#{i}", expected="name.lower() in used_names", found=src(c))
     adds = [c for c in calls_in(f.node) if dotted(c.func) == "used_names.add"]
-    ok = len(adds) == 1 and src(adds[0].args[0]) == "name.lower()"
+    ok = len(adds) == 1 and P.T(adds[0].args[0]) == "name.lower()"
     run.ob(ok, "VhdlScope.complete_setup", file=m.rel, line=(adds[0].lineno if adds else f.node.lineno), detail="insertion", expected="used_names.add(name.lower())", found="; ".join(src(a) for a in adds))
-    ok = any(isinstance(a, ast.Assign) and dotted(a.targets[0]) == "name" and src(a.value) == "name.strip('_')" for a in ast.walk(f.node))
+    ok = any(isinstance(a, ast.Assign) and dotted(a.targets[0]) == "name" and P.T(a.value) == "name.strip('_')" for a in ast.walk(f.node))
     run.ob(ok, "VhdlScope.complete_setup", file=m.rel, line=f.node.lineno, detail="strip-underscores", expected="name = name.strip('_')", found="ok" if ok else "missing")
     # the assigned name is the searched one, stored after the search
     stores = [a for a in ast.walk(f.node) if isinstance(a, ast.Assign) and dotted(a.targets[0]) == "decl.name"]
     ok = len(stores) == 1 and dotted(stores[0].value) == "name" and all(t.lineno < stores[0].lineno for t in tests)
     run.ob(ok, "VhdlScope.complete_setup", file=m.rel, line=(stores[0].lineno if stores else f.node.lineno), detail="assigned-after-search", expected="decl.name = name after the collision search", found="ok" if ok else "changed")
     # child scopes inherit the parent's used names
-    t = src(f.node)
+    t = P.T(f.node)
     ok = "set(self._parent._used_names) | self._used_names" in t and "self._used_names = used_names" in t
     run.ob(ok, "VhdlScope.complete_setup", file=m.rel, line=f.node.lineno, detail="inherits-parent-names", expected="names of enclosing scopes are taken (no hiding)", found="ok" if ok else "changed")
     r = m.func("VhdlScope.reserve_name")
-    ok = "self._used_names.add(name.lower())" in src(r.node)
+    ok = "self._used_names.add(name.lower())" in P.T(r.node)
     run.ob(ok, "VhdlScope.reserve_name", file=m.rel, line=r.node.lineno, detail="lower-cased", expected="self._used_names.add(name.lower())", found=src(r.node.body[-1]))
     init = m.func("ModuleScope.__init__")
-    ok = ".lower()" in src(init.node) and "additional_reserved_names" in src(init.node)
-    comp = [c for c in ast.walk(init.node) if isinstance(c, (ast.SetComp, ast.GeneratorExp)) and "additional_reserved_names" in src(c)]
-    ok = bool(comp) and ".lower()" in src(comp[0].elt)
+    ok = ".lower()" in P.T(init.node) and "additional_reserved_names" in P.T(init.node)
+    comp = [c for c in ast.walk(init.node) if isinstance(c, (ast.SetComp, ast.GeneratorExp)) and "additional_reserved_names" in P.T(c)]
+    ok = bool(comp) and ".lower()" in P.T(comp[0].elt)
     run.ob(ok, "ModuleScope.__init__", file=m.rel, line=init.node.lineno, detail="user-names-lower-cased", expected="{name.lower() for name in additional_reserved_names}", found=src(comp[0]) if comp else "stored as given")
     run.end()
 
@@ -197,19 +198,19 @@ def rule_choices(run):
     run.begin("C06.f", "case statements always have an others branch; with/select emits `when others` (known finding when no default)", floor=2)
     m = run.idx.mod(VH)
     f = m.func("CaseWhen.write")
-    ifx = [e for e in ast.walk(f.node) if isinstance(e, ast.IfExp) and "_others" in src(e.test)]
+    ifx = [e for e in ast.walk(f.node) if isinstance(e, ast.IfExp) and "_others" in P.T(e.test)]
     if not ifx:
         raise AnalysisError("others-branch selection of CaseWhen.write not found")
-    for arm, e in (("no-default", ifx[0].body if "is None" in src(ifx[0].test) else ifx[0].orelse), ("default", ifx[0].orelse if "is None" in src(ifx[0].test) else ifx[0].body)):
-        ok = "when others =>" in src(e)
+    for arm, e in (("no-default", ifx[0].body if "is None" in P.T(ifx[0].test) else ifx[0].orelse), ("default", ifx[0].orelse if "is None" in P.T(ifx[0].test) else ifx[0].body)):
+        ok = "when others =>" in P.T(e)
         run.ob(ok, "CaseWhen.write", file=m.rel, line=e.lineno, detail=f"others[{arm}]", expected="`when others =>` emitted", found="ok" if ok else src(e)[:60])
     # the others branch is inside the emitted list between the branches and `end case;`
     ok = src(f.node).find("when others") < src(f.node).find("end case;")
     run.ob(ok, "CaseWhen.write", file=m.rel, line=f.node.lineno, detail="others-before-end", expected="others branch precedes `end case;`", found="ok" if ok else "order changed")
     s = m.func("SelectWith.write")
     # abstract evaluation on the two-point domain default in {None, value}
-    others_elems = [e for e in ast.walk(s.node) if isinstance(e, ast.ListComp) and "when others" in src(e.elt)]
-    cond_none = bool(others_elems) and any("is not None" in src(i) for g in others_elems[0].generators for i in g.ifs)
+    others_elems = [e for e in ast.walk(s.node) if isinstance(e, ast.ListComp) and "when others" in P.T(e.elt)]
+    cond_none = bool(others_elems) and any("is not None" in P.T(i) for g in others_elems[0].generators for i in g.ifs)
     run.ob(not cond_none, "SelectWith.write", file=m.rel, line=s.node.lineno, detail="others[no-default]",
            expected="`when others` emitted (or the design rejected) when there is no default", found="no `when others` choice is emitted when _default is None" if cond_none else "ok")
     run.end()
@@ -228,12 +229,12 @@ def rule_sensitivity(run):
     top = [s for s in fr.node.body if isinstance(s, ast.If)]
     ok = len(top) == 1 and src(top[0].test) in ("access is ir.AccessFlags.READ and isinstance(obj, Signal)", "isinstance(obj, Signal) and access is ir.AccessFlags.READ")
     run.ob(ok, "VhdlAssembler.apply.find_read_roots", file=a.rel, line=fr.node.lineno, detail="admission", expected="READ access to a Signal", found="; ".join(src(s.test) for s in top))
-    ok = bool(top) and any(dotted(c.func) == "read_roots.add" and src(c.args[0]) == "obj._root" for c in calls_in(top[0].body))
+    ok = bool(top) and any(dotted(c.func) == "read_roots.add" and P.T(c.args[0]) == "obj._root" for c in calls_in(top[0].body))
     run.ob(ok, "VhdlAssembler.apply.find_read_roots", file=a.rel, line=fr.node.lineno, detail="root", expected="read_roots.add(obj._root)", found="ok" if ok else "changed")
     # nothing is removed from read_roots and the list is built from the whole set
     muts = [c for c in ast.walk(ap.node) if isinstance(c, ast.Call) and isinstance(c.func, ast.Attribute) and dotted(c.func.value) == "read_roots" and c.func.attr not in ("add",)]
     rebinds = [x for x in ast.walk(ap.node) if isinstance(x, (ast.Assign, ast.AugAssign)) and any(dotted(t) == "read_roots" for t in (x.targets if isinstance(x, ast.Assign) else [x.target]))]
-    filt = [x for x in ast.walk(ap.node) if isinstance(x, (ast.ListComp, ast.GeneratorExp, ast.SetComp)) and "read_roots" in src(x)]
+    filt = [x for x in ast.walk(ap.node) if isinstance(x, (ast.ListComp, ast.GeneratorExp, ast.SetComp)) and "read_roots" in P.T(x)]
     ok = not muts and len(rebinds) == 1 and not filt
     run.ob(ok, "VhdlAssembler.apply[Sequential]", file=a.rel, line=fr.node.lineno, detail="no-filtering",
            expected="read_roots only grows; no removal / filtering (a process reading what it writes must be sensitive to it)",
@@ -246,7 +247,7 @@ def rule_sensitivity(run):
     m = run.idx.mod(VH)
     h = m.func("Process._write_header")
     # two-point abstract evaluation of the header template: the list may be empty
-    guarded = any(isinstance(x, (ast.Assert, ast.If)) and "signals" in src(x) and ("len(" in src(x) or "not " in src(x)) for x in walk_local(h.node))
+    guarded = any(isinstance(x, (ast.Assert, ast.If)) and "signals" in P.T(x) and ("len(" in P.T(x) or "not " in P.T(x)) for x in walk_local(h.node))
     run.ob(guarded, "Process._write_header", file=m.rel, line=h.node.lineno, detail="non-empty-list",
            expected="an empty sensitivity list is never emitted as `process()`", found="ok" if guarded else "`process()` is emitted when the process reads no signal")
     run.end()
@@ -264,13 +265,13 @@ def rule_buffers(run):
     ap = a.func("VhdlAssembler.apply")
     br = None
     for s in ap.node.body:
-        if isinstance(s, ast.If) and "ir.EntityTemplate" in src(s.test):
+        if isinstance(s, ast.If) and "ir.EntityTemplate" in P.T(s.test):
             br = s
     if br is None:
         raise AnalysisError("anchor vanished: EntityTemplate branch of VhdlAssembler.apply")
-    t = src(br)
-    sel = [x for x in ast.walk(br) if isinstance(x, ast.If) and "Port.Direction.OUTPUT" in src(x.test)]
-    ok = len(sel) == 1 and src(sel[0].test) in ("port.direction() == Port.Direction.OUTPUT", "port.direction() is Port.Direction.OUTPUT") and "output_ports.append(port)" in src(sel[0])
+    t = P.T(br)
+    sel = [x for x in ast.walk(br) if isinstance(x, ast.If) and "Port.Direction.OUTPUT" in P.T(x.test)]
+    ok = len(sel) == 1 and src(sel[0].test) in ("port.direction() == Port.Direction.OUTPUT", "port.direction() is Port.Direction.OUTPUT") and "output_ports.append(port)" in P.T(sel[0])
     run.ob(ok, "VhdlAssembler.apply[EntityTemplate]", file=a.rel, line=(sel[0].lineno if sel else br.lineno), detail="buffered-ports", expected="exactly the OUTPUT ports are buffered (inout ports stay connected directly)", found=src(sel[0].test) if sel else "selection changed")
     ok = "buffer_ports = output_ports" in t
     run.ob(ok, "VhdlAssembler.apply[EntityTemplate]", file=a.rel, line=br.lineno, detail="all-outputs", expected="buffer_ports = output_ports", found="ok" if ok else "changed")
@@ -281,7 +282,7 @@ def rule_buffers(run):
     for detail, needle in (("buffer-drives-port", "vhdl.SignalAssignment(vhdl.Target(port), vhdl.Value(buffer))"), ("alias", "alias_scope.set_alias(port, buffer)"), ("declared", "arch_scope.declare(buffer)")):
         run.ob(needle in lt, "VhdlAssembler.apply[EntityTemplate]", file=a.rel, line=loop[0].lineno, detail=detail, expected=needle, found="ok" if needle in lt else "missing")
     subs = [c for c in ast.walk(br) if isinstance(c, ast.Call) and dotted(c.func) == "self.apply" and any(k.arg is None for k in c.keywords)]
-    n_alias = sum(1 for c in subs if "'parent_scope': alias_scope" in src(c))
+    n_alias = sum(1 for c in subs if "'parent_scope': alias_scope" in P.T(c))
     run.ob(len(subs) >= 2 and n_alias == len(subs), "VhdlAssembler.apply[EntityTemplate]", file=a.rel, line=br.lineno, detail="assembled-under-alias-scope",
            expected="every sub-block and context is assembled with parent_scope=alias_scope", found=f"{n_alias}/{len(subs)}")
     m = run.idx.mod(VH)
@@ -299,7 +300,7 @@ def rule_buffers(run):
         ok = refs == {"self.__class__._alias_map_"}
         run.ob(ok, q, file=m.rel, line=f.node.lineno, detail="uses-private-map", expected="self.__class__._alias_map_", found=str(sorted(refs)))
     lk = m.func("AliasScope.lookup_name")
-    ok = "super().lookup_name(obj)" in src(lk.node) and "obj = self.__class__._alias_map_[obj]" in src(lk.node)
+    ok = "super().lookup_name(obj)" in P.T(lk.node) and "obj = self.__class__._alias_map_[obj]" in P.T(lk.node)
     run.ob(ok, "AliasScope.lookup_name", file=m.rel, line=lk.node.lineno, detail="redirects", expected="aliased objects are looked up by their replacement", found="ok" if ok else "changed")
     run.end()
 
